@@ -204,6 +204,10 @@ package report
 // every iteration the base is the node of that iteration, and every address is taken relative to the current base ----
 //@ func printCallgrind nosafety funcvalues=pure
 //@   callsite callgrindAddress base: $arg0 == iter(prevInfo)
+// each compression table serves one kind of name: object files, source files, function names (a line kind that draws
+// its id from another kind's table would alias two id spaces)
+//@   callsite callgrindName object_table: ($arg0 == objfiles ==> $arg1 == n.Info.Objfile) && ($arg0 == objfiles || $arg0 == files || $arg0 == names)
+//@   callsite callgrindName callee_tables: ($arg0 == files ==> $arg1 == callee.Info.File) && ($arg0 == names ==> $arg1 == nodeNames[callee]) && $arg0 != objfiles
 //@   loop 1
 //@     step base_is_node: prevInfo == addr(n.Info)
 //@     mustcall callgrindName new_block_named: $arg1 == n.Info.Name when iter(prevInfo) == nil || n.Info.Objfile != iter(prevInfo).Objfile || n.Info.File != iter(prevInfo).File || n.Info.Name != iter(prevInfo).Name
